@@ -168,7 +168,7 @@ COV_TEARDOWN = feat({'self_fields': COV_FIELDS,
                                  " G.thr_trace == self.tracer._old_threading_trace and not G.settrace_wrapped)"]})
 
 # ------------------------------------------------------------------ Runner.run: the try/finally around the test phase
-RUN_GHOST = {'gs': 'Set[Feature]', 'early': 'Set[Feature]', 'torn': 'Set[Feature]', 'testing': 'bool'}
+RUN_GHOST = {'gs': 'Set[Feature]', 'early': 'Set[Feature]', 'torn': 'Set[Feature]', 'testing': 'bool', 'xmlw': 'int'}
 ALL_TORN = ("forall(q, Int, implies(0 <= q and q < len(self.features), self.features[q] in G.early and"
             " self.features[q] in G.torn))")
 
@@ -207,6 +207,14 @@ def configure_rule(E, st, node, args, kws, k):
 configure_rule.__name__ = 'self.configure(): assumed to leave self.features / self.options as given symbolically'
 
 
+def write_xml_rule(E, st, node, args, kws, k):
+    from pyvc.vals import VInt
+    st.ghost['xmlw'] = VInt(st.ghost['xmlw'].z + 1)
+    return k(st, NONE)
+write_xml_rule.__name__ = 'self.options.output.writeXMLReports(): the report files are written (ghost G.xmlw += 1)'
+write_xml_rule.modifies = ['G.xmlw']
+
+
 def with_warnings(E, st, node):
     return E.exec_block(node.body, st)
 with_warnings.__name__ = 'warnings.catch_warnings(): restores the warnings filters on every exit (T4)'
@@ -218,15 +226,19 @@ RUN = {
                     'layer_name_cache': 'Any'},
     'ghost': RUN_GHOST,
     'requires': ["not G.testing"],
-    'modifies': ['self.layer_name_cache', 'G.gs', 'G.early', 'G.torn', 'G.testing'],
+    'modifies': ['self.layer_name_cache', 'G.gs', 'G.early', 'G.torn', 'G.testing', 'G.xmlw'],
     'ghost_code': {'for feature in self.features:\n    feature.late_setup()': ['G.testing = True']},   # the test phase begins
-    'ensures': ["implies(G.testing, " + ALL_TORN + ")"],
+    'ensures': ["implies(G.testing, " + ALL_TORN + ")",
+                # C17: with --xml the reports are written exactly once after every run that got as far as running tests
+                # (and not at all without it) -- after the teardown, so the tree the wrapper recorded is complete
+                "G.xmlw == old(G.xmlw) + ite(bool(self.options.xmlOutput) and not self.options.fail, 1, 0)"],
     # once the test phase has begun, every feature gets early_teardown and global_teardown, whatever ends the phase
     'raises': {'Exception': ["implies(G.testing, " + ALL_TORN + ")"], 'BaseException': ["implies(G.testing, " + ALL_TORN + ")"]},
     'props': {"self.do_run_tests": ['C03', 'C18']},
     'callsites': {
         # C03: --list-tests (Listing.global_setup clears do_run_tests) reaches no test or layer code
         'self.run_tests': ["self.do_run_tests"],
+        'self.options.output.writeXMLReports': ["G.testing", ALL_TORN, "G.xmlw == old(G.xmlw)"],
         # a feature is only torn down after all features were set up (the loops are not interleaved)
         'feature.global_teardown': ["forall(q, Int, implies(0 <= q and q < len(self.features), self.features[q] in G.gs))",
                                     "forall(q, Int, implies(0 <= q and q < len(self.features), self.features[q] in G.early))"],
@@ -249,6 +261,7 @@ RUN = {
         'feature.global_teardown': feature_call('global_teardown', 'torn', False),
         'feature.report': feature_call('report', None, True),
         'with:self._enabled_warnings()': with_warnings,
+        'self.options.output.writeXMLReports': write_xml_rule,
     },
 }
 
